@@ -11,6 +11,7 @@ import (
 	"github.com/cosmos/cosmos-sdk/codec"
 	sdk "github.com/cosmos/cosmos-sdk/types"
 
+	govv1 "github.com/cosmos/cosmos-sdk/x/gov/types/v1"
 	recordtypes "mods.irisnet.org/modules/record/types"
 
 	"verif/internal/ev"
@@ -41,6 +42,7 @@ type recordWorkload struct {
 	quiet   bool
 	prevRaw map[string]string
 	canon   []recordtypes.Content
+	govCreated int // records created by governance since the last store diff
 }
 
 func newRecordWorkload() *recordWorkload {
@@ -207,11 +209,12 @@ func (w *recordWorkload) Observe(br *rig.BlockRecord) {
 				run.Violation("C19:record:stored-record-changed", map[string]any{"key": hex.EncodeToString([]byte(k)), "height": br.Height}, "record key %x changed value at height %d", k, br.Height)
 			}
 		}
-		if len(cur)-len(w.prevRaw) != len(newIDs) {
+		if len(cur)-len(w.prevRaw) != len(newIDs)+w.govCreated {
 			run.Violation("C19:record:store-additions-differ-from-returned-ids", map[string]any{"height": br.Height}, "%d records returned ids at height %d but the store grew by %d keys", len(newIDs), br.Height, len(cur)-len(w.prevRaw))
 		}
 	}
 	w.prevRaw = cur
+	w.govCreated = 0
 	// periodic full re-read
 	if br.Height%25 == 0 {
 		w.rereadAll("periodic")
@@ -231,14 +234,80 @@ func (w *recordWorkload) rereadAll(age string) {
 
 func runRecord(run *ev.Run, c int) {
 	w := newRecordWorkload()
-	r := rig.New(rig.Options{Seed: fmt.Sprintf("rec-%d-%d", run.Seed, c), NumAccounts: 4, Balances: sdk.NewCoins(sdk.NewInt64Coin(rig.BondDenom, 1_000_000)), InflationOff: true})
+	r := rig.New(rig.Options{Seed: fmt.Sprintf("rec-%d-%d", run.Seed, c), NumAccounts: 4, Balances: sdk.NewCoins(sdk.NewInt64Coin(rig.BondDenom, 1_000_000_000)), InflationOff: true,
+		GenesisMutator: func(cdc codec.Codec, gs map[string]json.RawMessage) {
+			// short voting period: records are also created by messages that x/gov executes in its end blocker,
+			// i.e. outside any transaction (no tx bytes), which is where byte-identical records can recur across blocks
+			var gg govv1.GenesisState
+			cdc.MustUnmarshalJSON(gs["gov"], &gg)
+			vp := 20 * time.Second
+			gg.Params.VotingPeriod = &vp
+			gg.Params.MinDeposit = sdk.NewCoins(sdk.NewInt64Coin(rig.BondDenom, 10))
+			gs["gov"] = cdc.MustMarshalJSON(&gg)
+		}})
 	w.Attach(run, r)
 	blocks := tierN(run.Tier, 150, 1200)
+	proposer := r.Acc(0)
+	govRecord := &recordtypes.MsgCreateRecord{Contents: w.canon, Creator: r.GovAddr.String()}
+	submitAt := map[int]bool{5: true, 9: true, 13: true, 60: true, 61: true}
+	quiet := func(b int) bool { // no record txs around the blocks in which a proposal is executed
+		for s := range submitAt {
+			if b >= s+18 && b <= s+25 {
+				return true
+			}
+		}
+		return false
+	}
+	var pendingVotes []uint64
+	emptyHash := sha256.Sum256(nil)
 	for b := 0; b < blocks; b++ {
-		br := r.DeliverBlock(time.Second, w.Next(b))
+		var txs []rig.Tx
+		if !quiet(b) {
+			txs = w.Next(b)
+		}
+		for _, id := range pendingVotes {
+			txs = append(txs, r.Mk(proposer, "gov-vote", govv1.NewMsgVote(proposer.Addr, id, govv1.OptionYes, "")))
+		}
+		pendingVotes = nil
+		if submitAt[b] {
+			if prop, err := govv1.NewMsgSubmitProposal([]sdk.Msg{govRecord}, sdk.NewCoins(sdk.NewInt64Coin(rig.BondDenom, 1000)), proposer.Addr.String(), "", "record", "create a record by governance", false); err == nil {
+				txs = append(txs, r.Mk(proposer, "gov-submit", prop))
+			}
+		}
+		br := r.DeliverBlock(time.Second, txs)
 		if br.FinalErr != nil {
 			run.Inconc("FinalizeBlock failed: %v", br.FinalErr)
 			return
+		}
+		for _, tx := range br.Txs {
+			if tx.Tag == "gov-submit" && tx.OK() && len(tx.Responses) == 1 {
+				var resp govv1.MsgSubmitProposalResponse
+				if r.Cdc.Unmarshal(tx.Responses[0].Value, &resp) == nil {
+					pendingVotes = append(pendingVotes, resp.ProposalId)
+				}
+			}
+		}
+		// records created by governance in the end blocker: ids come from the module's events
+		for _, e := range br.EndEvents {
+			if e.Type != recordtypes.EventTypeCreateRecord {
+				continue
+			}
+			id := ""
+			for _, a := range e.Attributes {
+				if a.Key == recordtypes.AttributeKeyRecordID {
+					id = a.Value
+				}
+			}
+			run.Eval(1)
+			run.Count("records-created-by-governance", 1)
+			if prev, dup := w.ids[id]; dup {
+				run.Violation("C19:record:id-returned-twice", map[string]any{"id": id, "first_height": prev.Height, "height": br.Height, "path": "governance-executed message"}, "record id %s given to a governance-created record at height %d was already given at height %d", id, br.Height, prev.Height)
+				continue
+			}
+			w.ids[id] = &recExpect{TxHash: strings.ToUpper(hex.EncodeToString(emptyHash[:])), Creator: r.GovAddr.String(), Contents: w.canon, Height: br.Height}
+			w.order = append(w.order, id)
+			w.govCreated++
+			run.Class("create", "by-governance", "identical-across-blocks")
 		}
 		w.Observe(br)
 	}
@@ -246,4 +315,5 @@ func runRecord(run *ev.Run, c int) {
 	run.Require("records-created", 100)
 	run.Require("identical-in-one-tx", 1)
 	run.Require("multi-record-tx", 1)
+	run.Require("records-created-by-governance", 3)
 }
